@@ -301,11 +301,67 @@ def slice_cases(rng, w, n, r, count, be):
     return out
 
 
+SWEEP = True      # thorough tier: the binary is built with the cargo feature `sweep` (tools/ops/C10.ops: @sweep)
+DIGS = b"0123456789abcdefghijklmnopqrstuvwxyz"
+
+
+def numeral(v, r):
+    """canonical numeral of v >= 0 in radix r (bytes)"""
+    if v == 0:
+        return [48]
+    if r == 10:
+        return list(str(v).encode())
+    if r == 16:
+        return list(("%x" % v).encode())
+    out = []
+    while v:
+        v, d = divmod(v, r)
+        out.append(DIGS[d])
+    return out[::-1]
+
+
+def sweep_cases(rng):
+    """EVERY width 8, 16, ..., 8192 bits (u8 digits, N = 1..=1024): the strings at the representability boundary, where a
+    width-dependent shortcut (digit-count estimate, fast accept / reject) would go wrong: MAX, MAX+1, the smallest and the
+    largest numeral of maximal length, one digit shorter all-(r-1), leading zeros; signed MAX, MAX+1, MIN, MIN-1.
+    Radix 10 at every width plus one other non-power-of-two radix (rotating) and one power of two."""
+    out = []
+    others = [3, 5, 6, 7, 9, 11, 12, 13, 14, 15, 17, 19, 20, 21, 23, 24, 26, 29, 30, 31, 33, 35, 36]
+    from .common import CONFIGS_ALL
+    std = {n for (w, n) in CONFIGS_ALL if w == 8}
+    for n in range(1, 1025):
+        if n in std:
+            continue
+        bits = 8 * n
+        M = 1 << bits
+        for r in (10, others[n % len(others)], (2, 4, 8, 16, 32)[n % 5]):
+            mx = numeral(M - 1, r)
+            L = len(mx)
+            top = r ** (L - 1)
+            strs = [mx, numeral(M, r), numeral(top, r), [DIGS[r - 1]] * L, [DIGS[r - 1]] * (L - 1) if L > 1 else [48],
+                    [48, 48] + mx, numeral(M - 1 - rng.below(1 << min(bits, 40)), r), numeral(M + rng.below(1 << min(bits, 40)), r),
+                    numeral(top + rng.below(top), r)]
+            for s_ in strs:
+                out.append(line("U.from_str_radix", 8, n, s_, r))
+            if r == 10 or n % 7 == 0:
+                ds = [DIGS.index(c) for c in mx]
+                out.append(line("U.from_radix_be", 8, n, ds, r))
+                out.append(line("U.from_radix_be", 8, n, [DIGS.index(c) for c in numeral(M, r)], r))
+            H = M >> 1
+            sg = [numeral(H - 1, r), numeral(H, r), [45] + numeral(H, r), [45] + numeral(H + 1, r), [43] + numeral(H - 1, r),
+                  [45] + numeral(H - rng.below(1 << min(bits - 1, 40)), r)]
+            for s_ in sg:
+                out.append(line("I.from_str_radix", 8, n, s_, r))
+    return out
+
+
 def gen(rng, tier):
     thorough = tier == "thorough"
     configs = CONFIGS_ALL if thorough else CONFIGS_QUICK
     out = []
     fixed = fixed_cases()
+    if thorough:
+        out += sweep_cases(rng)
     for (w, n) in configs:
         bits = w * n
         big = bits > 1100
